@@ -26,6 +26,7 @@ type GenOpts struct {
 	Presence     bool
 	Unions       bool
 	Leafrefs     bool
+	Augments     bool // some children are written in augment statements, some one-child cases in shorthand form
 }
 
 // AllTypes is every leaf base type the harness models.
@@ -34,7 +35,7 @@ var AllTypes = []string{"int8", "int16", "int32", "int64", "uint8", "uint16", "u
 // DefaultGen is a rich default configuration.
 func DefaultGen() GenOpts {
 	return GenOpts{Types: AllTypes, KeyTypes: []string{"string", "int32", "int64", "uint8", "boolean", "enumeration"}, MaxDepth: 3, MaxChildren: 5,
-		Lists: true, CompoundKeys: true, Choices: true, NestedChoice: true, LeafLists: true, Defaults: true, ConfigFalse: true, Presence: true, Unions: true}
+		Lists: true, CompoundKeys: true, Choices: true, NestedChoice: true, LeafLists: true, Defaults: true, ConfigFalse: true, Presence: true, Unions: true, Augments: true}
 }
 
 type genState struct {
@@ -112,7 +113,51 @@ func GenModule(t *rapid.T, o GenOpts) *Module {
 	g := &genState{t: t, o: o, mod: &Module{Name: "gm"}}
 	n := rapid.IntRange(1, o.MaxChildren).Draw(t, "ntop")
 	g.mod.Top = g.children(n, 0, true)
+	if o.Augments {
+		GenLayout(t, g.mod)
+	}
 	return g.mod
+}
+
+// GenLayout draws how the module text is laid out without changing what it means: one-child cases become shorthand
+// cases (named after the child), and a subset of the children of a container, list, choice or case moves into one
+// augment statement aimed at that node. The moved children follow the others in the model, as they do in the compiled
+// schema. Key leaves stay, and every node keeps at least one child written in place.
+func GenLayout(t *rapid.T, m *Module) {
+	var walk func(n *Node, top bool)
+	walk = func(n *Node, top bool) {
+		if n.Kind == "choice" {
+			for _, cs := range n.Children {
+				if cs.Kind == "case" && !cs.Short && len(cs.Children) == 1 && cs.Children[0].Kind != "choice" && cs.When == "" && cs.Config == nil && cs.Extra == "" &&
+					rapid.IntRange(0, 2).Draw(t, "shorthand?") == 0 {
+					cs.Short = true
+					cs.Name = cs.Children[0].Name
+				}
+			}
+		}
+		if !top && len(n.Children) >= 2 && !(n.Kind == "case" && n.Short) && rapid.IntRange(0, 3).Draw(t, "augment?") == 0 {
+			var stay, move []*Node
+			for i, c := range n.Children {
+				key := false
+				for _, k := range n.Keys {
+					key = key || k == c.Name
+				}
+				if !key && i > 0 && rapid.IntRange(0, 2).Draw(t, "moved?") > 0 {
+					c.Aug = true
+					move = append(move, c)
+				} else {
+					stay = append(stay, c)
+				}
+			}
+			n.Children = append(stay, move...)
+		}
+		for _, c := range n.Children {
+			walk(c, false)
+		}
+	}
+	for _, n := range m.Top {
+		walk(n, false)
+	}
 }
 
 func (g *genState) children(n int, depth int, cfg bool) []*Node {
